@@ -13,7 +13,7 @@ from typing import List, Set
 
 from fsa.escape import Escape
 from fsa.flow import PARAM
-from fsa.match import Unknown, dotted, is_call, is_const, method_call, root_name
+from fsa.match import Unknown, dotted, is_call, is_const, method_call, nnf_atoms, root_name
 from fsa.effects import MUTATORS
 from fsa.source import Unsupported, iter_own_nodes, text
 from rules.common import Fn, module_bound_names
@@ -280,6 +280,114 @@ def _brackets_counted_on_stripped_text(R) -> None:
     R.expect(P, n_sites, 1, 'places where the splitter counts round brackets')
 
 
+def _strip_comments_paths(R, sc_) -> None:
+    """Every exit of strip_comments returns text free of `#`: either the part before the first `#`, or the line itself on a
+    path where a test has established that the line has no `#` (position == -1, `'#' not in line`, empty partition separator).
+    A raw-line exit guarded only by tests that do not imply that (the comment text being empty, the position being <= 0) keeps
+    the `#` in the statement for exactly the lines that pass the test."""
+    f = Fn(R, sc_.qualname)
+    params = [a.arg for a in sc_.node.args.args]
+    if len(params) != 1:
+        raise Unsupported(f'{sc_.qualname}: expected one parameter (the line), found {params}')
+    line = params[0]
+    # names bound by unpacking line.partition('#') / line.rpartition is not a cut at the first '#'
+    parts = {}
+    for n in f.cfg.nodes:
+        if n.kind == 'stmt' and isinstance(n.ast, ast.Assign) and len(n.ast.targets) == 1 and isinstance(n.ast.targets[0], ast.Tuple):
+            v = f.expand(n.id, n.ast.value)
+            if method_call(v, 'partition') and text(v.func.value) == line and len(v.args) == 1 and is_const(v.args[0], '#') and len(n.ast.targets[0].elts) == 3:
+                for k, t in enumerate(n.ast.targets[0].elts):
+                    if isinstance(t, ast.Name) and len(f.assigns_to(t.id)) <= 1:
+                        parts[t.id] = ('prefix', 'sep', 'tail')[k]
+
+    def kind(nid: int, e: ast.AST):
+        e = f.expand(nid, e, stop=tuple(parts))
+        while isinstance(e, ast.Call) and isinstance(e.func, ast.Attribute) and e.func.attr in ('rstrip', 'strip', 'lstrip') and not e.keywords:
+            e = e.func.value
+        if isinstance(e, ast.Name):
+            if e.id == line and not f.assigns_to(line):
+                return 'raw'
+            return parts.get(e.id)
+        if isinstance(e, ast.IfExp):
+            # an arm that is the whole line counts as cut where the test establishes that there is no `#`
+            arms = []
+            for arm, truth in ((e.body, True), (e.orelse, False)):
+                k = kind(nid, arm)
+                if k == 'raw' and any(no_hash(nid, a, t) is True for (a, t) in nnf_atoms(e.test, truth)):
+                    k = 'prefix'
+                arms.append(k)
+            return arms[0] if arms[0] == arms[1] else None
+        if method_call(e, 'find', 'index') and text(e.func.value) == line and len(e.args) == 1 and is_const(e.args[0], '#'):
+            return 'pos'
+        if isinstance(e, ast.Subscript):
+            b = e.value
+            if isinstance(b, ast.Name) and b.id == line and isinstance(e.slice, ast.Slice) and e.slice.lower is None and e.slice.step is None \
+                    and e.slice.upper is not None and kind(nid, e.slice.upper) == 'pos':
+                return 'prefix'
+            if isinstance(e.slice, ast.Constant) and isinstance(e.slice.value, int) and text(getattr(getattr(b, 'func', None), 'value', ast.Name(id='')) ) == line \
+                    and b.args and is_const(b.args[0], '#'):
+                if method_call(b, 'partition') and len(b.args) == 1:
+                    return {0: 'prefix', 1: 'sep', 2: 'tail'}.get(e.slice.value)
+                if method_call(b, 'split') and e.slice.value == 0:
+                    return 'prefix'
+        return None
+
+    def no_hash(nid: int, a: ast.AST, truth: bool):
+        """True: the atom establishes that the line has no `#`; False: it is understood and does not; None: not understood."""
+        if isinstance(a, ast.Compare) and len(a.ops) == 1:
+            l, op, r = a.left, a.ops[0], a.comparators[0]
+            if isinstance(op, (ast.In, ast.NotIn)) and is_const(l, '#') and kind(nid, r) == 'raw':
+                return isinstance(op, ast.NotIn) == truth
+            k = kind(nid, l)
+            c = r.value if isinstance(r, ast.Constant) else (-r.operand.value if isinstance(r, ast.UnaryOp) and isinstance(r.op, ast.USub) and isinstance(r.operand, ast.Constant) else None)
+            if k == 'pos' and isinstance(c, int):
+                # the set of positions (>= -1) admitted by the atom is exactly {-1}
+                ops = {ast.Eq: lambda p: p == c, ast.NotEq: lambda p: p != c, ast.Lt: lambda p: p < c, ast.LtE: lambda p: p <= c,
+                       ast.Gt: lambda p: p > c, ast.GtE: lambda p: p >= c}
+                fn = ops.get(type(op))
+                if fn is None:
+                    return None
+                admitted = [p for p in range(-1, 6) if fn(p) == truth]
+                return admitted == [-1]
+            if k == 'sep' and isinstance(c, str) and isinstance(op, (ast.Eq, ast.NotEq)):
+                return (c == '') == (isinstance(op, ast.Eq) == truth) if c in ('', '#') else None
+            if k in ('tail', 'prefix'):
+                return False
+            return None
+        k = kind(nid, a)
+        if k == 'sep':
+            return not truth
+        if k in ('tail', 'prefix', 'raw'):
+            return False
+        return None
+
+    rets = [r for r in f.returns() if r.ast is not None and getattr(r.ast, 'value', None) is not None]
+    if not R.require(sc_.qualname, len(rets), 'return of the stripped line', fi=f.fi, pred=lambda x: isinstance(x, ast.Return)):
+        return
+    for r in rets:
+        k = kind(r.id, r.ast.value)
+        key = 'exit:' + text(r.ast.value)[:50]
+        if k == 'prefix':
+            R.check(True, sc_.qualname, key, 'this exit returns the text before the first `#`', '', where=f.where(r))
+            continue
+        if k != 'raw':
+            R.inconclusive(sc_.qualname, f'`return {text(r.ast.value)[:60]}` ({f.where(r)}) is not recognised as the line cut at its first `#`, nor as the line itself')
+            continue
+        verdicts = [(a, t, no_hash(tn.id, a, t)) for (a, t, tn) in f.xguard_atoms(r.id, stop=tuple(parts))]
+        if any(v is True for (_a, _t, v) in verdicts):
+            R.check(True, sc_.qualname, key, 'the line is returned whole only where a test has established that it has no `#`', '', where=f.where(r))
+            continue
+        decided = all(v is False for (_a, _t, v) in verdicts)
+        g = ' and '.join(('' if t else 'not ') + text(a)[:40] for (a, t, _v) in verdicts) or 'no test at all'
+        msg = (f'`return {text(r.ast.value)[:40]}` hands back the whole line under `{g}`, which does not establish that the line has no `#`: '
+               f'a line that passes the test and still has a `#` keeps its comment in the statement')
+        if decided:
+            R.check(False, sc_.qualname, key, '', msg, decided=True, where=f.where(r))
+        else:
+            # a test this rule does not understand may well establish it
+            R.inconclusive(sc_.qualname, msg + ' (one of the tests is not understood by this rule)')
+
+
 def r2_comments_blanks(R) -> None:
     _brackets_counted_on_stripped_text(R)
     q = f'{P}.split_equations_iter'
@@ -322,6 +430,7 @@ def r2_comments_blanks(R) -> None:
     sc_ = R.repo.func(q + '.<locals>.strip_comments')
     finds = [x for x in ast.walk(sc_.node) if method_call(x, 'find', 'index', 'partition', 'split') and x.args and is_const(x.args[0], '#')]
     R.check(bool(finds), sc_.qualname, 'strip-at-hash', 'a comment starts at the first `#`', 'strip_comments does not locate `#`', where=sc_.where)
+    _strip_comments_paths(R, sc_)
     # blank statements are skipped
     ys = [n for n in f.cfg.nodes if n.ast is not None and n.kind == 'stmt' and any(isinstance(x, ast.Yield) for x in ast.walk(n.ast))]
     if R.require(q, len(ys), 'yield of a statement', fi=f.fi, pred=lambda x: isinstance(x, ast.Yield)):
